@@ -78,7 +78,8 @@ RunOps(ops, i, c, acc) ==
   IF acc.done THEN acc
   ELSE IF i > Len(ops) THEN [acc EXCEPT !.res = Append(@, [r |-> "ret", ty |-> "None", uid |-> ""]), !.done = TRUE]
   ELSE LET op == ops[i] IN
-  CASE op.op \in {"gate", "send", "publish", "store_set"} -> RunOps(ops, i + 1, c, acc)
+  CASE (op.only # "*" /\ op.only # c.ty) -> RunOps(ops, i + 1, c, acc)         \* op guarded by the input type
+    [] op.op \in {"gate", "send", "publish", "store_set"} -> RunOps(ops, i + 1, c, acc)
     [] op.op = "collect" ->
         LET coll == R!BufGet(c.snapColl, op.buf)
             okNow == /\ Remaining(op.expected, coll, c.ty) = 1
